@@ -204,10 +204,6 @@ def handlePGD : Parser String := do
 
 /-! ### end-to-end domain -/
 
-def pgDomain : Domain PGKey Nat PGPred PortGraph PGMap :=
-  { req := pgReq, opts := pgOpts, map := assocMap, arity := PGPred.arity,
-    check := fun p g vs => pgCheck p g vs }
-
 abbrev PgPat := PortGraph × Option Nat
 
 /-- C01/C02 judge for port graphs: a reported match must be an embedding (through the keys
